@@ -77,6 +77,8 @@ pub struct Run {
 impl Run {
     pub fn new(prop: &str, level: &'static str, tier: Tier) -> Run {
         let seed = std::env::var("VERIF_SEED").ok().and_then(|s| s.parse().ok()).unwrap_or(0);
+        // replays of an earlier run of this property are stale
+        let _ = std::fs::remove_dir_all(verif_dir().join("replays").join(prop));
         let kf = verif_dir().join("known_findings.json");
         let mut known = Vec::new();
         if let Ok(s) = std::fs::read_to_string(&kf) {
